@@ -154,7 +154,7 @@ fn owner_main(plan: SessionPlan, stream: crate::stream::SimStream, hist: Hist) {
                 }
                 Err(e) => {
                     hist.lock().unwrap().conn.push(ConnRec::OpenChannel { requested: *id, invoke, ret, result: Err(err_string(&e)), for_thread: thread_no, slot, keep: false });
-                    chans.push(ChanCtx { ptr: std::ptr::null_mut(), id: 0, closed: true, returns: None, confirms: None, kept: Vec::new() });
+                    chans.push(ChanCtx { ptr: std::ptr::null_mut(), id: 0, closed: true, returns: None, confirms: None, old_returns: Vec::new(), old_confirms: Vec::new(), kept: Vec::new() });
                 }
             }
         }
